@@ -2,7 +2,12 @@
 
 package encoder
 
-import "unsafe"
+import (
+	"fmt"
+	"unsafe"
+
+	"github.com/goccy/go-json/internal/runtime"
+)
 
 // Hooks for the /verif correspondence harness. Compiled only with -tags verif.
 
@@ -45,4 +50,65 @@ func VerifCacheIndex(typeptr uintptr) (index int, fast bool, size int) {
 		return 0, false, len(cachedOpcodeSets)
 	}
 	return int((typeptr - typeAddr.BaseTypeAddr) >> typeAddr.AddrShift), true, len(cachedOpcodeSets)
+}
+
+// VerifDumpPrograms compiles typ from scratch (no cache) and lists the slot layout of its programs:
+// the top-level program, its interface twin and every recursive program reachable through Jmp.
+// One line per program:
+//
+//	top <CodeLength> : <ops>      iface <CodeLength> : <ops>      rec <id> : <ops>
+//
+// and each op is kind,idx,elemIdx,length,size[,curLen,nextLen,target] with kind p (plain), a (array
+// head: Length is an element count), i (interface), r (recursive), e/E/I (end codes).
+func VerifDumpPrograms(typ *runtime.Type) ([]string, error) {
+	set, err := newCompiler().compile(uintptr(unsafe.Pointer(typ)))
+	if err != nil {
+		return nil, err
+	}
+	var out []string
+	ids := map[*CompiledCode]int{}
+	var queue []*CompiledCode
+	dump := func(head *Opcode) string {
+		s := ""
+		c := head
+		for {
+			kind := "p"
+			extra := ""
+			switch {
+			case c.Op == OpEnd:
+				kind = "e"
+			case c.Op == OpRecursiveEnd:
+				kind = "E"
+			case c.Op == OpInterfaceEnd:
+				kind = "I"
+			case c.Op == OpInterface || c.Op == OpInterfacePtr:
+				kind = "i"
+			case c.Op == OpRecursive || c.Op == OpRecursivePtr:
+				kind = "r"
+				id, ok := ids[c.Jmp]
+				if !ok {
+					id = len(ids)
+					ids[c.Jmp] = id
+					queue = append(queue, c.Jmp)
+				}
+				extra = fmt.Sprintf(",%d,%d,%d", c.Jmp.CurLen, c.Jmp.NextLen, id)
+			case c.Op.CodeType() == CodeArrayHead:
+				kind = "a"
+			}
+			s += fmt.Sprintf(" %s,%d,%d,%d,%d%s", kind, c.Idx, c.ElemIdx, c.Length, c.Size, extra)
+			if c.IsEnd() {
+				break
+			}
+			c = c.IterNext()
+		}
+		return s
+	}
+	out = append(out, fmt.Sprintf("top %d :%s", set.CodeLength, dump(set.NoescapeKeyCode)))
+	out = append(out, fmt.Sprintf("top %d :%s", set.CodeLength, dump(set.EscapeKeyCode)))
+	out = append(out, fmt.Sprintf("iface %d :%s", set.CodeLength, dump(set.InterfaceNoescapeKeyCode)))
+	out = append(out, fmt.Sprintf("iface %d :%s", set.CodeLength, dump(set.InterfaceEscapeKeyCode)))
+	for i := 0; i < len(queue); i++ {
+		out = append(out, fmt.Sprintf("rec %d :%s", i, dump(queue[i].Code)))
+	}
+	return out, nil
 }
